@@ -197,6 +197,10 @@ def run(ctx):
     from ..etf import check_scalars_verbatim
     check_scalars_verbatim(ctx, 'C03.2-scalars-verbatim')
 
+    ctx.rule('C03.2-field-ranges', 'a field the format restricts to a range is accepted for exactly that range (Bits of BIT_BINARY_EXT: 1..8)', floor=2)
+    from ..etf import check_field_ranges
+    check_field_ranges(ctx, 'C03.2-field-ranges')
+
     # ---------------- clause 7: the order that keys decoded maps ---------------------------------------------------
     ctx.rule('C03.7-map-key-order', 'MAP_EXT entries are collected into a BTreeMap keyed by the term type: "no map entry is dropped or merged" needs an order under which two different keys never compare Equal - '
              'the comparator rules of C11/C12 (no self-comparison, big integers by sign, length and digits from the most significant end, no truncating reads, lists with the length as tie-break ...) re-run here', floor=60)
